@@ -423,11 +423,17 @@ def encoderChecksum (modes : Nat) : Mat :=
   (List.range (modes - 1)).map fun i => (List.range modes).map fun j => if i = j then 1 else 0
 
 /-- `_decoder_checksum(modes, odd)` -/
+def checksumStart (odd : Bool) : Except Err Poly :=
+  if odd then ofString [[Tok.const 1]] else pure []
+
+/-- `all_in += BinaryPolynomial('w' + str(mode))` -/
+def allInStep (acc : Poly) (m : Nat) : Except Err Poly := do
+  let w ← ofString [[Tok.var m]]
+  pure (iadd acc w)
+
 def decoderChecksum (modes : Nat) (odd : Bool) : Except Err (List Poly) := do
-  let start : Poly ← if odd then ofString [[Tok.const 1]] else pure []
-  let allIn ← (List.range (modes - 1)).foldlM (fun acc m => do
-      let w ← ofString [[Tok.var m]]
-      pure (iadd acc w)) start
+  let start ← checksumStart odd
+  let allIn ← (List.range (modes - 1)).foldlM allInStep start
   let djw ← linearizeDecoder (identity (modes - 1))
   pure (djw ++ [allIn])
 
